@@ -928,6 +928,8 @@ def subscript(I, e, b):
             isinstance(el0.lower, ast.Constant) and el0.lower.value in (0, None)):
         # x[-k:] / x[a - b:] / x[k:]: the rows from some offset to the END of the leading axis
         out.tags["suffix_slice"] = (b.shape.axes[0] if (b.shape is not None and not b.shape.ell and b.shape.axes) else None) or "?"
+    if isinstance(el0, ast.Slice) and el0.lower is None and el0.upper is not None and el0.step is None:
+        out.tags["prefix_slice"] = b.term if b.term is not None else True       # x[:k]: the leading rows
     if b.tag("corner_cloud"):
         if isinstance(el0, ast.Slice) and (el0.lower is not None or el0.upper is not None):
             out.tags["corner_cloud"] = True
